@@ -4,6 +4,7 @@
 //
 //   det <src> <dst|-> <delay_us> <op> <op> ...      scripted schedule whose event order is known by construction
 //        on | off | idle            ptt_on() | ptt_off() | wait_until_idle()
+//        src:<call> | dst:<call|->  source(call) | dest(call) between key-ups (the modulator is idle)
 //        s:<v1,v2,...>              put these samples on the audio queue (blocking put), then wait until it is empty
 //        ws:<n>                     wait until int(state()) == n
 //        wb:<n>                     wait until the consumer has received >= n bytes in total
@@ -109,6 +110,8 @@ static void run_det(const std::vector<std::string>& t)
         if (op == "on") rig.mod.ptt_on();
         else if (op == "off") rig.mod.ptt_off();
         else if (op == "idle") rig.mod.wait_until_idle();
+        else if (op.rfind("src:", 0) == 0) rig.mod.source(op.substr(4));
+        else if (op.rfind("dst:", 0) == 0) rig.mod.dest(op.substr(4) == "-" ? std::string() : op.substr(4));
         else if (op.rfind("s:", 0) == 0) {
             for (int v : csv_ints(op.substr(2))) { rig.audio->put(int16_t(v)); ++fed; }
             rig.wait([&] { return rig.audio->empty(); }, "audio-not-consumed");
